@@ -71,7 +71,7 @@ def gen_source_unit(sc, sidecar_path, repo):
         for st in stmts[:-1]:
             a = rxprep._alias(st) if st and st[0].is_id('let') else None
             txt = src[st[0].start:st[-1].end]
-            if not (st and st[0].is_id('let') and re.fullmatch(r'let\s+(\w+)\s*=\s*(Arc::clone\(&self\.\w+\)|self\.\1\.clone\(\))', re.sub(r'\s+', ' ', txt).strip().replace('( &', '(&'))):
+            if not (st and st[0].is_id('let') and re.fullmatch(r'let\s+(\w+)\s*=\s*(Arc::clone\(&self\.\w+\)|self\.\1(\.clone\(\))?)', re.sub(r'\s+', ' ', txt).strip().replace('( &', '(&'))):
                 sk_problems.append('unrecognised statement before Observable::create: `%s`' % txt)
     if 'only_stmt' in sc:
         inner = rxprep.split_statements(cl.body[0].kids) if len(cl.body) == 1 and cl.body[0].is_group('{') else []
@@ -587,7 +587,14 @@ def gen_unit(sidecar_path: str, repo: str) -> dict:
             sk_problems.append('inner_subscribe is called on `%s`, expected `%s`' % (got, want_target))
         if sk.unknown:
             sk_problems.append('unrecognised statements in the create-closure: %r' % sk.unknown)
-        if sk.prologue and not sc.get('allow_prologue'):
+        if sc.get('prologue_is') is not None:
+            # a declared prologue: exactly these statements (whitespace-insensitive, `$s` = the create-closure parameter); what they do
+            # is the obligation of the unit `<op>_prologue`
+            want = [re.sub(r'\s+', '', x.replace('$s', sk.create_param or 's')) for x in sc['prologue_is']]
+            got = [re.sub(r'\s+', '', x) for x in sk.prologue]
+            if got != want:
+                sk_problems.append('statements before StreamController::new differ from the declared prologue: %r' % sk.prologue)
+        elif sk.prologue and not sc.get('allow_prologue'):
             sk_problems.append('statements before StreamController::new: %r' % sk.prologue)
         for c in cells:
             if c not in sk.cells and c not in sk.outer_cells:
@@ -798,7 +805,7 @@ def gen_unit(sidecar_path: str, repo: str) -> dict:
         twin_text += '\n' + open(os.path.join(VERIF, 'models', extra)).read()
     twin_text += '\nverus! {\n%s\n%s\n} // verus!\nfn main() {}\n' % (sc.get('spec', ''), '\n'.join(twins))
     definite = {}
-    if kind == 'single' and sc.get('allow_prologue'):
+    if kind == 'single' and sc.get('allow_prologue') and sc.get('prologue_is') is None:
         definite['wiring_guarded_by_is_subscribed'] = (
             bool(sk.guarded_by_is_subscribed),
             'the operator emits before it wires its source (prologue %r) but the wiring is not guarded by `if %s.is_subscribed()`: a subscriber that ended during the prologue still causes the source to be subscribed' % (sk.prologue, sk.create_param),
